@@ -1,5 +1,6 @@
 """C11 - the compiler emits exactly the instructions written, in the documented encoding."""
 import multiprocessing as mp
+from ..par import SafePool
 from ..common import Report
 from .. import asmcheck
 
@@ -26,7 +27,7 @@ def main(tier: str, seed: int) -> int:
     asmcheck.mc_family(rep, 'struct', 'asm', seed)
     n = 4000 if quick else 60000
     jobs = [(seed * 7919 + i, n // 56) for i in range(56)]
-    with mp.get_context('fork').Pool(14) as pool:
+    with SafePool(14) as pool:
         cases = [c for ch in pool.map(asmcheck._record_asm_chunk, jobs) for c in ch]
     rep.extra['accepted_by_compiler'] = sum(1 for c in cases if c['accepted'])
     rep.sample({'random_program_source': cases[0]['src'], 'accepted': cases[0]['accepted'], 'bytes': bytes(cases[0]['got']).hex()[:120]})
